@@ -461,6 +461,11 @@ class Process:
             # APIs which don't use _raise_if_pid_reused().
             msg = "process no longer exists and its PID has been reused"
             raise NoSuchProcess(self.pid, self._name, msg=msg)
+        if self._gone:
+            # The process was seen gone (is_running() remembers that and
+            # no longer checks the identity): if its PID is alive again
+            # it belongs to another process, which we must not touch.
+            raise NoSuchProcess(self.pid, self._name)
 
     @property
     def pid(self):
